@@ -84,9 +84,9 @@ def u_get_running_task(ip: Interp, th: PoolTheory):
 LOOPSPECS = {}
 
 
-def loopspec(qual, ordinal, props=(), name=""):
+def loopspec(qual, ordinal, props=(), name="", sig=None):
     def deco(fn):
-        LOOPSPECS[(qual, ordinal)] = LoopSpec(fn, props, name=name or f"loop{ordinal}")
+        LOOPSPECS[(qual, ordinal)] = LoopSpec(fn, props, name=name or f"loop{ordinal}", sig=sig)
         return fn
 
     return deco
@@ -106,7 +106,7 @@ def requested(st0: St, st: St, pred):
                                  z3.Select(e1, t) == z3.Or(z3.Select(e0, t), z3.And(pred(t), live))))
 
 
-@loopspec("pool.BaseTaskPool.cancel", 1, ("C06",), "cancel-each")
+@loopspec("pool.BaseTaskPool.cancel", 1, ("C06",), "cancel-each", sig="tasks")
 def inv_cancel(c):
     tasks: SeqV = c.loc("tasks")
     j = z3.Int("j!l")
@@ -475,8 +475,8 @@ def spawner_loop_inv(numvar):
     return inv
 
 
-LOOPSPECS[("pool.TaskPool._apply_spawner", 1)] = LoopSpec(spawner_loop_inv(lambda c: c.st.loc["num"].t), ("C04",), name="spawn-each")
-LOOPSPECS[("pool.SimpleTaskPool._start_num", 1)] = LoopSpec(spawner_loop_inv(lambda c: c.st.loc["num"].t), ("C04",), name="spawn-each")
+LOOPSPECS[("pool.TaskPool._apply_spawner", 1)] = LoopSpec(spawner_loop_inv(lambda c: c.st.loc["num"].t), ("C04",), name="spawn-each", sig="range(num)")
+LOOPSPECS[("pool.SimpleTaskPool._start_num", 1)] = LoopSpec(spawner_loop_inv(lambda c: c.st.loc["num"].t), ("C04",), name="spawn-each", sig="range(num)")
 
 
 def spawner_unit(qual: str, kind: int, cls: str, mk_args):
